@@ -257,7 +257,8 @@ class AsyncIOClient(ABC):
                     await self.writer.drain()
                     self.logger.debug(f"Sent: {msg.hex()}")
 
-        except ValueError as ve:
+        except (ValueError, NotImplementedError) as ve:
+                # the message (or, for a gateway without an encoder, any message) cannot be sent; the connection is fine
                 self.logger.warning(f"Failed to encode message. Error {ve}")
         except Exception as ex:
             if self._state != State.CLOSED:
